@@ -360,3 +360,102 @@ Definition f6_design : design :=
 Theorem elab_complete_refuted :
   wf_design_addrs f6_design = true /\ bit_level_defect f6_design = None /\ elab_model f6_design = Some MultiWriter.
 Proof. vm_compute. repeat split. Qed.
+
+(* ------------------------------------------------------------------ (d) the faithful model of the implementation's checks
+   coincides with the bit-level decision on every well-formed design that avoids its two deviations:
+   no update block writes two overlapping sibling slices, and no net has two distinct overlapping members *)
+Section Opts.
+Variable D : design.
+Hypothesis W : wf_design_addrs D = true.
+
+Definition good (net : list node) : Prop :=
+  forall m r, In m net -> In r net -> r <> m -> ivl_rel (adr D m) (adr D r) = false.
+
+Lemma cand_opts R net m : good net -> In m net -> cand faithful D R net m = cand bitlevel D R net m.
+Proof.
+  intros G Hm. unfold cand. cbn [o_rel o_samenet_overlap faithful bitlevel].
+  f_equal; [f_equal|].
+  - apply existsb_cong; [apply leq_refl|]. intros d _. apply walk_iff_perbit_design. exact W.
+  - apply existsb_cong; [apply leq_refl|]. intros r _. rewrite (walk_iff_perbit_design D m r W).
+    destruct (memn r net) eqn:Mr.
+    + apply memn_In in Mr. destruct (Nat.eqb_spec r m) as [->|Hne].
+      * cbn [negb]. rewrite !andb_false_r. reflexivity.
+      * rewrite (G m r Hm Mr Hne). reflexivity.
+    + assert (r <> m) by (intros ->; apply memn_In in Hm; congruence).
+      destruct (Nat.eqb_spec r m); [contradiction|]. reflexivity.
+Qed.
+
+Lemma has_cand_opts R net : good net -> existsb (cand faithful D R net) net = existsb (cand bitlevel D R net) net.
+Proof. intros G. apply existsb_cong; [apply leq_refl|]. intros m Hm. apply cand_opts; assumption. Qed.
+
+Lemma fresh_opts N R : (forall net, In net N -> good net) -> fresh faithful D N R = fresh bitlevel D N R.
+Proof.
+  unfold fresh. induction N as [|net N IH]; intros HG; cbn [flat_map]; [reflexivity|].
+  rewrite IH by (intros n Hn; apply HG; right; exact Hn).
+  rewrite (has_cand_opts R net (HG net (or_introl eq_refl))). f_equal.
+  destruct (existsb (cand bitlevel D R net) net); [|reflexivity].
+  apply filter_ext_in. intros m Hm. rewrite (cand_opts R net m (HG net (or_introl eq_refl)) Hm). reflexivity.
+Qed.
+
+Lemma iter_opts N : (forall net, In net N -> good net) -> forall n R, iter faithful D N n R = iter bitlevel D N n R.
+Proof.
+  intros HG. induction n as [|k IH]; intros R; cbn [iter]; [reflexivity|].
+  rewrite (fresh_opts N R HG). destruct (fresh bitlevel D N R); [reflexivity|apply IH].
+Qed.
+
+Lemma two_cands_opts R net : good net -> two_cands faithful D R net = two_cands bitlevel D R net.
+Proof.
+  intros G. unfold two_cands. apply existsb_cong; [apply leq_refl|]. intros m1 H1.
+  rewrite (cand_opts R net m1 G H1). f_equal. apply existsb_cong; [apply leq_refl|]. intros m2 H2.
+  rewrite (cand_opts R net m2 G H2). reflexivity.
+Qed.
+
+Lemma good_class_of E a : (forall net, In net (components E) -> good net) -> good (class_of (components E) a).
+Proof.
+  intros HG m r Hm Hr Hne. apply in_class_of in Hm, Hr.
+  destruct (same_trans_comp E m a r (same_sym _ _ _ Hm) Hr) as [c [Hc [Hmc Hrc]]].
+  exact (HG c Hc m r Hmc Hrc Hne).
+Qed.
+
+Lemma conn_viol_opts R k c : (forall net, In net (components (edges D)) -> good net) ->
+  conn_viol faithful D (components (edges D)) R k c = conn_viol bitlevel D (components (edges D)) R k c.
+Proof.
+  intros HG. unfold conn_viol, on_side. cbv zeta.
+  pose proof (good_class_of (edges D) (c_a c) HG) as Gc.
+  assert (E : forall x C', existsb (fun w => cand faithful D R (class_of (components (edges D)) (c_a c)) w && (Nat.eqb w x || same_b C' w x))
+                                   (class_of (components (edges D)) (c_a c)) =
+                           existsb (fun w => cand bitlevel D R (class_of (components (edges D)) (c_a c)) w && (Nat.eqb w x || same_b C' w x))
+                                   (class_of (components (edges D)) (c_a c))).
+  { intros x C'. apply existsb_cong; [apply leq_refl|]. intros w Hw. rewrite (cand_opts R _ w Gc Hw). reflexivity. }
+  rewrite !E. reflexivity.
+Qed.
+
+Theorem elab_iff_partial :
+  no_sameblk_sib_overlap D = true -> no_samenet_overlap D = true -> elab_model D = bit_level_defect D.
+Proof.
+  intros HB HN. unfold elab_model, bit_level_defect, defect_with.
+  destruct (op_defect D); [reflexivity|]. destruct (conn_loop (edges D)); [reflexivity|]. cbv zeta.
+  assert (HG : forall net, In net (components (edges D)) -> good net).
+  { intros net Hnet m r Hm Hr Hne. unfold no_samenet_overlap in HN. rewrite forallb_forall in HN.
+    specialize (HN net Hnet). rewrite forallb_forall in HN. specialize (HN m Hm). rewrite forallb_forall in HN.
+    specialize (HN r Hr). destruct (Nat.eqb_spec r m); [contradiction|]. cbn [orb] in HN.
+    apply negb_true_iff in HN. exact HN. }
+  unfold driven_final. rewrite (iter_opts _ HG).
+  set (R := iter bitlevel D (components (edges D)) (length (d_sigs D)) []).
+  assert (E1 : net_multi faithful D (components (edges D)) R = net_multi bitlevel D (components (edges D)) R).
+  { unfold net_multi. apply existsb_cong; [apply leq_refl|]. intros net Hnet. apply two_cands_opts. apply HG. exact Hnet. }
+  assert (E2 : blk_multi faithful D = blk_multi bitlevel D).
+  { unfold blk_multi. cbn [o_rel o_sameblk_slices faithful bitlevel].
+    apply existsb_cong; [apply leq_refl|]. intros w1 H1. apply existsb_cong; [apply leq_refl|]. intros w2 H2.
+    rewrite (walk_iff_perbit_design D _ _ W). unfold no_sameblk_sib_overlap in HB. rewrite forallb_forall in HB.
+    specialize (HB w1 H1). rewrite forallb_forall in HB. specialize (HB w2 H2). apply negb_true_iff in HB.
+    cbn [andb]. rewrite HB. reflexivity. }
+  assert (E3 : net_none faithful D (components (edges D)) R = net_none bitlevel D (components (edges D)) R).
+  { unfold net_none. apply existsb_cong; [apply leq_refl|]. intros net Hnet. f_equal. apply has_cand_opts. apply HG. exact Hnet. }
+  assert (E4 : forall k, existsb (conn_viol faithful D (components (edges D)) R k) (d_conn D) =
+                         existsb (conn_viol bitlevel D (components (edges D)) R k) (d_conn D)).
+  { intros k. apply existsb_cong; [apply leq_refl|]. intros c _. apply conn_viol_opts. exact HG. }
+  rewrite E1, E2, E3, !E4. reflexivity.
+Qed.
+
+End Opts.
